@@ -16,6 +16,8 @@ import (
 
 // C17: retries back off and never become a hot loop.
 
+const c17ShortTimeout = 10 * time.Millisecond
+
 // backoffTable is the schedule of the statement, restated literally.
 func backoffTable(n int) []time.Duration {
 	var t []time.Duration
@@ -50,7 +52,13 @@ func c17Body(p c17Params, out *c17Obs) func() {
 	return func() {
 		*out = c17Obs{}
 		cl := stdCluster()
-		w := newWorld(cl)
+		var copts []gohbase.Option
+		if strings.HasSuffix(p.failure, "-timeout") {
+			// a lookup that fails by timing out: with a short lookup timeout the waits between
+			// attempts are visible (attempt gap = timeout + wait)
+			copts = append(copts, gohbase.RegionLookupTimeout(c17ShortTimeout))
+		}
+		w := newWorld(cl, copts...)
 		out.w = w
 		warm := func(k string) {
 			g, _ := hrpc.NewGetStr(context.Background(), "t", k)
@@ -89,6 +97,10 @@ func c17Body(p c17Params, out *c17Obs) func() {
 			cl.Script["hbase:meta,,1"] = many(sim.ClsCallQueue)
 		case "meta-conn-drop":
 			cl.Script["hbase:meta,,1"] = many(sim.ClsServerStop)
+		case "meta-timeout":
+			cl.Silent[cl.MetaAddr] = true
+		case "zk-timeout":
+			w.zkSilent = true
 		case "zk-error":
 			for i := 0; i < 200; i++ {
 				cl.ZKScript = append(cl.ZKScript, "connection loss")
@@ -122,6 +134,8 @@ func c17Body(p c17Params, out *c17Obs) func() {
 		out.returned = true
 		cl.KeyScript, cl.Script, cl.ZKScript = map[string][]string{}, map[string][]string{}, nil
 		cl.Down = map[string]bool{}
+		cl.Silent = map[string]bool{}
+		w.zkSilent = false
 		w.client.Close()
 		vrt.Sleep(10 * time.Minute)
 	}
@@ -207,7 +221,11 @@ func c17Check(p c17Params, out *c17Obs) func(res *vrt.Result) *explore.Finding {
 			if (strings.HasPrefix(name, "lookup") || strings.HasPrefix(name, "metascan")) && !strings.HasPrefix(p.failure, "meta-") {
 				continue
 			}
-			if name == "zookeeper" && p.failure != "zk-error" {
+			if name == "zookeeper" && p.failure != "zk-error" && p.failure != "zk-timeout" {
+				continue
+			}
+			timeoutLoop := (p.failure == "meta-timeout" && strings.HasPrefix(name, "lookup")) || (p.failure == "zk-timeout" && name == "zookeeper")
+			if strings.HasSuffix(p.failure, "-timeout") && !timeoutLoop {
 				continue
 			}
 			// up to two immediate retries are allowed for connection-level failures
@@ -219,6 +237,20 @@ func c17Check(p c17Params, out *c17Obs) func(res *vrt.Result) *explore.Finding {
 					continue // the first two retries of a connection-level failure need not wait
 				}
 				want := table[k]
+				if timeoutLoop {
+					// every attempt lasts the lookup timeout, then the wait follows: never restarts
+					min := c17ShortTimeout + want
+					if p.early {
+						min = want // an early-firing timer may cut the attempt itself short, never the wait
+					}
+					if g < min {
+						return &explore.Finding{Class: "retry-gap-below-schedule: " + p.entry + " with " + p.failure,
+							Msg: fmt.Sprintf("loop %q: attempt #%d started %v after the previous one; lookup timeout %v + scheduled wait %v demand at least %v (attempt times %v)\n%s",
+								name, i, g, c17ShortTimeout, want, c17ShortTimeout+want, head(ts, 12), p.name)}
+					}
+					k++
+					continue
+				}
 				// establishment / lookup loops restart their own schedule with every outage; a gap may
 				// therefore also restart at the beginning of the table, but it must never be shorter
 				// than the first step, and within one loop it must not shrink below its predecessor's step
@@ -273,7 +305,7 @@ func head(ts []time.Duration, n int) []time.Duration {
 func c17Units(thorough bool) []*explore.Unit {
 	var units []*explore.Unit
 	for _, entry := range []string{"get", "batch", "batch2"} {
-		for _, failure := range []string{"retry-later", "conn-drop-request", "region-never-online", "meta-retry", "meta-conn-drop", "zk-error", "dial-refused"} {
+		for _, failure := range []string{"retry-later", "conn-drop-request", "region-never-online", "meta-retry", "meta-conn-drop", "zk-error", "dial-refused", "meta-timeout", "zk-timeout"} {
 			for _, early := range []bool{false, true} {
 				p := c17Params{entry: entry, failure: failure, early: early}
 				p.name = fmt.Sprintf("entry=%s|failure=%s|early-timers=%v", entry, failure, early)
